@@ -5,6 +5,7 @@
 #include <symmatrix.h>
 #include <sparse_matrix.h>
 #include <MathsIO.H>
+#include <matio.h>
 #include <OMMathExceptions.H>
 #include <mesh.h>
 #include <MeshIO.h>
@@ -220,6 +221,20 @@ static Wire c07(Reader& r) {
         Obj o; getObj(r,o); int tk=(int)r.n();
         return in_child([&]{ std::string p = fname("omfile_rtm",3); std::remove(p.c_str());
             Wire out; ll st = guarded_code([&]{ saveObj(o,p.c_str()); }); out.push_back(st); if (st==0) loadOutcome(out,tk,p.c_str()); return out; },20); }
+    case 9: {   // csc: sparse obj -> [save status, nl, nc, nir, ir.., njc, jc.., ndata, data words.., load outcome] (MATLAB file reopened with matio)
+        Obj o; getObj(r,o); if (o.kind!=K_SPARSE) throw Reader::Malformed();
+        return in_child([&]{ std::string p = fname("omfile_csc",3); std::remove(p.c_str());
+            Wire out; ll st = guarded_code([&]{ saveObj(o,p.c_str()); }); out.push_back(st); if (st!=0) return out;
+            mat_t* mat = Mat_Open(p.c_str(),MAT_ACC_RDONLY);
+            matvar_t* v = mat ? Mat_VarReadNext(mat) : nullptr;
+            if (!v || v->class_type!=MAT_C_SPARSE) { out.push_back(-1); return out; }
+            mat_sparse_t* sp = static_cast<mat_sparse_t*>(v->data);
+            out.push_back(v->dims[0]); out.push_back(v->dims[1]);
+            out.push_back(sp->nir); for (size_t k=0;k<(size_t)sp->nir;++k) out.push_back(sp->ir[k]);
+            out.push_back(sp->njc); for (size_t k=0;k<(size_t)sp->njc;++k) out.push_back(sp->jc[k]);
+            out.push_back(sp->ndata); for (size_t k=0;k<(size_t)sp->ndata;++k) out.push_back(d2w(static_cast<double*>(sp->data)[k]));
+            Mat_VarFree(v); Mat_Close(mat);
+            loadOutcome(out,K_SPARSE,p.c_str()); return out; },20); }
     case 10: {  // mesh: mfmt nbytes bytes... -> mesh load outcome, in a child process
         int mf=(int)r.n(); std::string p = std::string("omfile_m.")+MSUFFIX[mf]; spit(p.c_str(),r);
         return in_child([&]{ return meshOutcome(p.c_str()); }); }
